@@ -236,6 +236,8 @@ def build_family(tier, seed):
     thorough = tier == "thorough"
     groups = {}
     for sym, generic, fermionic in CLASSES:
+        if not thorough and sym == "U1U1":
+            continue  # (quick tier: Z2, U1, Z4-generic abelian; Z2, U1, Z2Z2 fermionic)
         two, one = fam.std_tables(sym, thorough, n_two=2, n_one=1)
         nm = f"{sym}{'-generic' if generic else ''}{'-fermionic' if fermionic else ''}"
         cases = []
